@@ -1440,17 +1440,17 @@ class SQLParser:
         inner_scanner = scanner
         parenthesis_stack = []
         while inner_scanner.search_one_type_mark(AMTMark.PARENTHESIS):
-            inner_scanner = scanner.pop_as_children_scanner()
+            inner_scanner = inner_scanner.pop_as_children_scanner()
             parenthesis_stack.append(inner_scanner)
 
         select_clause = cls._parse_select_clause(inner_scanner, sql_type)
         from_clause = (cls._parse_from_clause(inner_scanner, sql_type)
                        if inner_scanner.search_one_type_str_use_upper("FROM") else None)
         lateral_view_clauses = []
-        while scanner.search_two_type_str_use_upper("LATERAL", "VIEW"):
+        while inner_scanner.search_two_type_str_use_upper("LATERAL", "VIEW"):
             lateral_view_clauses.append(cls._parse_lateral_view_clause(inner_scanner, sql_type))
         join_clause = []
-        while scanner.search_one_type_set_use_upper({"JOIN", "INNER", "LEFT", "RIGHT", "FULL", "CROSS"}):
+        while inner_scanner.search_one_type_set_use_upper({"JOIN", "INNER", "LEFT", "RIGHT", "FULL", "CROSS"}):
             join_clause.append(cls._parse_join_clause(inner_scanner, sql_type))
         where_clause = cls._parse_where_clause(inner_scanner, sql_type)
         group_by_clause = cls._parse_group_by_clause(inner_scanner, sql_type)
